@@ -58,6 +58,9 @@ type C19Sc struct {
 	// CorePanic (batch-item chain): the operation handler panics on every execution. The executor turns the panic into
 	// a failed item, and that failed item is the result the innermost stage receives from its continuation
 	CorePanic bool `json:"core_panic,omitempty"`
+	// Option (server drivers): the Batch Error Continuation Option in the header of the (single-item) requests:
+	// 0 unset, 1 Continue, 2 Stop. With one item there is nothing to stop or continue: the chain runs the same
+	Option int `json:"option,omitempty"`
 	// Behav (client driver): what the scripted server does with the k-th request it reads (cycled): it may close the
 	// connection instead of replying (closing after a reply is left to C11: whether the next call then fails on its
 	// write or re-dials depends on which of the two notices first, and a failing transport is a different chain result). The client transport, innermost in the chain, then
@@ -108,6 +111,9 @@ func genC19(g *simrt.Tape, tier string) any {
 	}
 	sc.Late = sc.Cut > 0 && sc.Driver != "client" && g.Draw(2) == 0
 	sc.CorePanic = sc.Driver == "server-item" && g.Draw(6) == 0
+	if sc.Driver != "client" {
+		sc.Option = g.Draw(3)
+	}
 	if sc.Driver == "client" && g.Draw(3) == 0 {
 		n := 2 + g.Draw(4)
 		sc.Behav = make([]ReqBehav, n)
@@ -179,6 +185,8 @@ func c19Floor(tier string) []*C19Sc {
 			out = append(out, fsc)
 			if d == "server-item" && l <= 2 {
 				out = append(out, &C19Sc{Driver: d, Stages: append([]StageSc{}, prefix...), Requests: 1, CorePanic: true})
+				out = append(out, &C19Sc{Driver: d, Stages: append([]StageSc{}, prefix...), Requests: 1, CorePanic: true, Option: 2})
+				out = append(out, &C19Sc{Driver: d, Stages: append([]StageSc{}, prefix...), Requests: 2, Option: 1 + l%2})
 			}
 			if l == maxLen {
 				return
@@ -614,7 +622,7 @@ func execC19(x *X, scAny any) {
 		if sc.CorePanic {
 			tok = "y1,ps"
 		}
-		return buildRequest(&ReqSc{Version: 4, Items: []ItemSc{{Tok: tok, NoID: true}}}, fmt.Sprintf("q%d", j))
+		return buildRequest(&ReqSc{Version: 4, Option: sc.Option, Items: []ItemSc{{Tok: tok, NoID: true}}}, fmt.Sprintf("q%d", j))
 	}
 	reqName := func(j int) string { return fmt.Sprintf("q%d.0", j) }
 
